@@ -30,11 +30,78 @@ impl WrappedWrite {
     { unimplemented!() }
 }
 
+/*@type file=src/register.rs name=DcSupport derive="Clone, Copy, PartialEq, Eq, Debug" @*/
+impl DcSupport {
+/*@fn file=src/register.rs impl="impl DcSupport" name=any props=C17
+    ensures r == !(*self is None)
+@*/
+/*@fn file=src/register.rs impl="impl DcSupport" name=enhanced props=C17
+    ensures r == (*self is Bits64 || *self is Bits32)
+@*/
+}
+
 /// the fields of SubDevice read here
-pub struct SubDevice { pub configured_address: u16, pub dc_receive_time: u64, pub propagation_delay: u32 }
+pub struct SubDevice { pub configured_address: u16, pub dc_receive_time: u64, pub propagation_delay: u32, pub dc_support: DcSupport }
 impl SubDevice {
     pub fn configured_address(&self) -> (r: u16) ensures r == self.configured_address { self.configured_address }
+    pub fn dc_support(&self) -> (r: DcSupport) ensures r == self.dc_support { self.dc_support }
 }
+pub open spec fn has_dc(d: SubDevice) -> bool { !(d.dc_support is None) }
+
+/// `subdevices.iter()` (R8) with the two adapters used on it here
+pub struct SdIter<'a> { pub rest: &'a [SubDevice] }
+pub struct DcOnly<'a> { pub all: &'a [SubDevice], pub next_from: Ghost<int> }
+#[verifier::external_body]
+pub fn sd_iter<'a>(s: &'a [SubDevice]) -> (r: SdIter<'a>) ensures r.rest@ == s@ { unimplemented!() }
+impl<'a> SdIter<'a> {
+    /// Iterator::find: the FIRST element the predicate accepts
+    #[verifier::external_body]
+    pub fn find<F: Fn(&&SubDevice) -> bool>(self, f: F) -> (r: Option<&'a SubDevice>)
+        requires
+            forall|d: &&SubDevice| #[trigger] f.requires((d,)),
+            forall|d: &&SubDevice, b: bool| #[trigger] f.ensures((d,), b) ==> b == has_dc(**d),
+        ensures
+            r is None ==> forall|i: int| 0 <= i < self.rest@.len() ==> !has_dc(#[trigger] self.rest@[i]),
+            r is Some ==> exists|k: int| 0 <= k < self.rest@.len() && *(r->Some_0) == #[trigger] self.rest@[k] && has_dc(self.rest@[k])
+                && forall|i: int| 0 <= i < k ==> !has_dc(#[trigger] self.rest@[i]),
+    { unimplemented!() }
+    /// Iterator::filter for the same predicate: yields, in order, exactly the elements with DC support
+    #[verifier::external_body]
+    pub fn filter<F: Fn(&&SubDevice) -> bool>(self, f: F) -> (r: DcOnly<'a>)
+        requires
+            forall|d: &&SubDevice| #[trigger] f.requires((d,)),
+            forall|d: &&SubDevice, b: bool| #[trigger] f.ensures((d,), b) ==> b == has_dc(**d),
+        ensures r.all@ == self.rest@, r.next_from@ == 0,
+    { unimplemented!() }
+}
+impl<'a> DcOnly<'a> {
+    /// the next element with DC support at or after position next_from
+    #[verifier::external_body]
+    pub fn next(&mut self) -> (r: Option<&'a SubDevice>)
+        requires 0 <= old(self).next_from@ <= old(self).all@.len()
+        ensures
+            final(self).all@ == old(self).all@,
+            old(self).next_from@ <= final(self).next_from@ <= old(self).all@.len(),
+            r is None ==> final(self).next_from@ == old(self).all@.len()
+                && forall|i: int| old(self).next_from@ <= i < old(self).all@.len() ==> !has_dc(#[trigger] old(self).all@[i]),
+            r is Some ==> final(self).next_from@ > old(self).next_from@ && *(r->Some_0) == old(self).all@[final(self).next_from@ - 1] && has_dc(*(r->Some_0))
+                && forall|i: int| old(self).next_from@ <= i < final(self).next_from@ - 1 ==> !has_dc(#[trigger] old(self).all@[i]),
+    { unimplemented!() }
+}
+
+/// what the two passes in front of the parameter writes may change: times, ports and delays - not which device is where, nor
+/// its DC capability (latch_dc_times: iterator adapters; assign_parent_relationships: Kani group `dc`)
+pub open spec fn same_devices(a: Seq<SubDevice>, b: Seq<SubDevice>) -> bool {
+    a.len() == b.len() && forall|i: int| 0 <= i < a.len() ==> (#[trigger] a[i]).configured_address == b[i].configured_address && a[i].dc_support == b[i].dc_support
+}
+#[verifier::external_body]
+pub async fn latch_dc_times(maindevice: &MainDevice, subdevices: &mut [SubDevice]) -> (r: Result<(), Error>)
+    ensures same_devices(final(subdevices)@, old(subdevices)@)
+{ unimplemented!() }
+#[verifier::external_body]
+pub fn assign_parent_relationships(subdevices: &mut [SubDevice]) -> (r: Result<(), Error>)
+    ensures same_devices(final(subdevices)@, old(subdevices)@)
+{ unimplemented!() }
 
 /// (a - b) as a 64-bit two's complement number
 pub open spec fn diff64(a: u64, b: u64) -> int {
@@ -50,9 +117,8 @@ pub proof fn lemma_trunc(w: u64)
         requires r == #[verifier::truncate] (w as i64);
 }
 
-// (`as i64` of a u64: Verus leaves an out-of-range cast unspecified unless it is marked as truncating - the marker adds the
-//  two's complement meaning Rust defines for the cast, it does not change the code)
-/*@fn file=src/dc.rs name=write_dc_parameters subst="MainDevice<'_>=>MainDevice@@now_nanos.wrapping_sub(subdevice.dc_receive_time) as i64=>(#[verifier::truncate] (now_nanos.wrapping_sub(subdevice.dc_receive_time) as i64))" props=C17
+// (rule R19: integer `as` casts are marked truncating - Verus leaves an out-of-range cast unspecified otherwise)
+/*@fn file=src/dc.rs name=write_dc_parameters subst="MainDevice<'_>=>MainDevice" truncate_casts=1 props=C17
     ensures
         r is Ok ==> reg_sent(Writes::Fpwr { address: subdevice.configured_address, register: 0x0920 }, diff64(now_nanos, subdevice.dc_receive_time))
             && reg_sent(Writes::Fpwr { address: subdevice.configured_address, register: 0x0928 }, subdevice.propagation_delay as int),
@@ -61,6 +127,37 @@ pub proof fn lemma_trunc(w: u64)
         let w: int = if now_nanos >= subdevice.dc_receive_time { now_nanos - subdevice.dc_receive_time } else { now_nanos - subdevice.dc_receive_time + 0x1_0000_0000_0000_0000 };
         lemma_trunc(w as u64);
     }
+@*/
+
+/// every DC-capable device was programmed against the master time t
+pub open spec fn all_programmed(devs: Seq<SubDevice>, upto: int, t: u64) -> bool {
+    forall|i: int| 0 <= i < upto && has_dc(#[trigger] devs[i]) ==>
+        reg_sent(Writes::Fpwr { address: devs[i].configured_address, register: 0x0920 }, diff64(t, devs[i].dc_receive_time))
+        && reg_sent(Writes::Fpwr { address: devs[i].configured_address, register: 0x0928 }, devs[i].propagation_delay as int)
+}
+
+/*@fn file=src/dc.rs name=configure_dc subst="<'subdevices>=><'subdevices, NowFn: Fn() -> u64>@@MainDevice<'_>=>MainDevice@@impl Fn() -> u64=>NowFn@@subdevices .iter()=>sd_iter(subdevices)" props=C17 attr="#[verifier::loop_isolation(false)] #[verifier::allow_complex_invariants]"
+    requires now.requires(())
+    ensures
+        final(subdevices)@.len() == old(subdevices)@.len(),
+        // the reference clock is the FIRST DC-capable device in frame-processing order (None iff there is none)
+        r is Ok && r->Ok_0 is None ==> forall|i: int| 0 <= i < final(subdevices)@.len() ==> !has_dc(#[trigger] final(subdevices)@[i]),
+        r is Ok && r->Ok_0 is Some ==> exists|k: int| 0 <= k < final(subdevices)@.len() && *(r->Ok_0->Some_0) == #[trigger] final(subdevices)@[k]
+            && has_dc(final(subdevices)@[k]) && forall|i: int| 0 <= i < k ==> !has_dc(#[trigger] final(subdevices)@[i]),
+        // every DC-capable device - and one master time for all of them - was programmed with (master time - its receive time)
+        // and its own propagation delay
+        r is Ok && r->Ok_0 is Some ==> exists|t: u64| #[trigger] all_programmed(final(subdevices)@, final(subdevices)@.len() as int, t),
+@closure 0 "|subdevice: &&SubDevice| -> (cb: bool)"
+    ensures cb == has_dc(**subdevice)
+@closure 1 "|sl: &&SubDevice| -> (cb: bool)"
+    ensures cb == has_dc(**sl)
+@loop 0
+    invariant
+        __it0.all@ == subdevices@, 0 <= __it0.next_from@ <= subdevices@.len(),
+        all_programmed(subdevices@, __it0.next_from@, now_nanos),
+    ensures
+        __it0.next_from@ == subdevices@.len(),
+    decreases subdevices@.len() - __it0.next_from@
 @*/
 
 } // verus!
